@@ -131,6 +131,24 @@ def _templates():
     return T
 
 
+def _rename_bound(c, suffix):
+    """give every variable bound in constraint text c (quantifiers, match-expression binders) a suffix, so that two
+    templates can be combined without name clashes"""
+    import re
+    names = set(re.findall(r'(?:forall|exists)\s+(?:<[^>]+>|int)\s+([A-Za-z_]\w*)', c))
+    names |= set(re.findall(r'\{<[^>]+>\s+([A-Za-z_]\w*)\}', c))
+    out = []
+    for i, part in enumerate(re.split(r'("(?:[^"\\]|\\.)*")', c)):
+        if i % 2:  # string literal / match expression: only binders {<T> name}
+            part = re.sub(r'\{(<[^>]+>)\s+([A-Za-z_]\w*)\}',
+                          lambda m: "{%s %s}" % (m.group(1), m.group(2) + suffix if m.group(2) in names else m.group(2)), part)
+        else:
+            part = re.sub(r'<[^>]*>|\b([A-Za-z_]\w*)\b',
+                          lambda m: m.group(0) + suffix if m.group(1) and m.group(1) in names else m.group(0), part)
+        out.append(part)
+    return "".join(out)
+
+
 FAMILIES = ["fuzz", "smt_eq", "smt_int", "smt_len", "exists", "defuse", "count", "numeric", "combo", "rnd_grammar"]
 
 
@@ -198,7 +216,7 @@ def generate(rnd, tier):
         f1, f2 = pick(rnd, fams), pick(rnd, fams)
         c1, c2 = pick(rnd, T[f1][gname])(rnd), pick(rnd, T[f2][gname])(rnd)
         grammar = G[gname]
-        constraint = c1 if c1 == c2 else "(%s) %s (%s)" % (c1, pick(rnd, ["and", "and", "or"]), c2)
+        constraint = c1 if c1 == c2 else "(%s) %s (%s)" % (c1, pick(rnd, ["and", "and", "or"]), _rename_bound(c2, "_2"))
         sub = f1 + "+" + f2
     else:
         gname = pick(rnd, sorted(T[fam]))
@@ -436,7 +454,7 @@ def judge(case):
         return {"labels": labels + ["inconclusive:" + why], "nontrivial": False, "violations": [], "inconclusive": why,
                 "counters": counters}
     labels += _consumer_labels(a["trailer"])
-    labels.append("end:" + str(a["end"]).split(":")[0])
+    labels.append("end:" + str(a["end"]))
     viol = []
     d = _compare(a, b)
     if d is not None:
@@ -484,6 +502,10 @@ def selftest():
     assert _flaky(dict(A, status="killed"), {}) == "child_killed"
     assert _parse("S 'x'\nE n\nT {\"unknown\": 0}\n", 0, False)["status"] == "ok"
     assert _parse("S 'x'\n", -9, False)["status"] == "crash"
+    assert _rename_bound('forall <use> u="{<id> l}={<id> r};" in start: exists int n: (before(u, u) and (= l r) and '
+                         'str.len(u.<id>) > str.to.int(n) and count(start, "<n>", n) and r = "r")', "_2") == \
+        ('forall <use> u_2="{<id> l_2}={<id> r_2};" in start: exists int n_2: (before(u_2, u_2) and (= l_2 r_2) and '
+         'str.len(u_2.<id>) > str.to.int(n_2) and count(start, "<n>", n_2) and r_2 = "r")')
     # every template parses as far as text goes: generator produces JSON-able cases of every family
     import random
     r = random.Random(5)
